@@ -371,6 +371,9 @@ protected:
     template<bool have_pool>
     async<void> worker_coro(std::stop_token state) {
         std::stop_callback stop_notify(state, [&]{
+            //the stop flag is not guarded by _mx: pass through _mx, so the request cannot
+            //fall between the worker's test of the flag and its wait (lost wake-up)
+            std::lock_guard _(_mx);
             _cond.notify_all();
         });
         std::unique_lock lk(_mx);
